@@ -17,7 +17,7 @@ Qed.
 Section Observed.
 Variable V : list N.
 Variables (tr : list (aevent * list (N * obs))) (e : aevent) (os : list (N * obs)) (s : state).
-Hypothesis Hacc : run V (tr ++ [(e, os)]) = Ok s.
+Hypothesis Hacc : run V (tr ++ [(e, os)]) = ROk s.
 
 Lemma acc_reach : Reachable V s.
 Proof. exact (proj1 (run_last_obs V tr e os s Hacc)). Qed.
@@ -94,14 +94,14 @@ Qed.
 
 End Observed.
 
-Theorem accepted_history_is_a_run : forall V tr s, run V tr = Ok s -> Reachable V s.
+Theorem accepted_history_is_a_run : forall V tr s, run V tr = ROk s -> Reachable V s.
 Proof. exact run_sound. Qed.
 
 Theorem accepted_history_observed : forall V tr e os s,
-  run V (tr ++ [(e, os)]) = Ok s -> Reachable V s /\ check_obs s os = true.
+  run V (tr ++ [(e, os)]) = ROk s -> Reachable V s /\ check_obs s os = true.
 Proof. exact run_last_obs. Qed.
 
-Theorem accepted_prefix : forall V tr1 tr2 s, run V (tr1 ++ tr2) = Ok s -> exists s1, run V tr1 = Ok s1.
+Theorem accepted_prefix : forall V tr1 tr2 s, run V (tr1 ++ tr2) = ROk s -> exists s1, run V tr1 = ROk s1.
 Proof. intros V tr1 tr2 s H. exact (run_from_app V tr1 tr2 0 init s H). Qed.
 
 Definition observed_one_leader_per_term := observed_one_leader_per_term_sec.
